@@ -10,15 +10,23 @@ COMMON_NOTE = ("Trusted: Lean 4.33 kernel; axioms propext / Classical.choice / Q
                "model's executable definitions on the same generated inputs, diffed) plus a direct exact-arithmetic oracle "
                "on the implementation's outputs. ")
 
-P = {
- "C09": dict(
-   text="Proof: ge/le empirical probabilities equal #{x_i>=v}/n and #{x_i<=v}/n for every non-empty finite sample and every "
-        "query (induction over lists, kernel-checked), with the sum and monotonicity corollaries; tied to the code by an "
-        "exhaustive correspondence over all multisets of size <=7 over 6 letters x 13 queries plus random large samples.",
-   note=COMMON_NOTE + "numpy.sort / numpy.searchsorted are modelled by their specification (sorted permutation, insertion "
-        "point); the float returned is compared to Python's k/n exactly.",
-   design="DESIGN.md §4 C09"),
-}
+import ast
+
+def meta(pid):
+    """LEVEL_TEXT / LEVEL_NOTE / DESIGN_REF / TECHNIQUE string constants of harness/cXX.py, read without importing it"""
+    path = os.path.join(V, "harness", pid.lower() + ".py")
+    out = {}
+    if not os.path.exists(path):
+        return out
+    for node in ast.parse(open(path).read()).body:
+        if isinstance(node, ast.Assign) and len(node.targets) == 1 and isinstance(node.targets[0], ast.Name):
+            name = node.targets[0].id
+            if name in ("LEVEL_TEXT", "LEVEL_NOTE", "DESIGN_REF", "TECHNIQUE", "NOT_APPLICABLE"):
+                try:
+                    out[name] = ast.literal_eval(node.value)
+                except Exception:
+                    pass
+    return out
 
 DEFAULT_TECH = "Lean 4 theorem over an executable model + model/implementation correspondence check"
 
@@ -29,8 +37,8 @@ def main():
         pid = p["id"]
         have = os.path.exists(os.path.join(V, "harness", pid.lower() + ".py")) and \
                os.path.exists(os.path.join(V, "lean", "PycsepVerif", "Properties", pid + ".lean"))
-        if have and pid in P:
-            m = P[pid]
+        m = meta(pid)
+        if have and "LEVEL_TEXT" in m and "NOT_APPLICABLE" not in m:
             checks.append(dict(
                 property_id=pid,
                 quick_cmd=f"./check {pid} --tier quick",
@@ -38,12 +46,12 @@ def main():
                 evidence_file=f"evidence/{pid}.json",
                 replay_cmd_template=f"./check {pid} --replay {{path}}",
                 engine="lean4-model+correspondence",
-                level_claimed=dict(category="proof", text=m["text"], design_ref=m["design"]),
-                level_note=m["note"],
-                technique=m.get("technique", DEFAULT_TECH)))
+                level_claimed=dict(category="proof", text=m["LEVEL_TEXT"], design_ref=m.get("DESIGN_REF", "DESIGN.md §4 " + pid)),
+                level_note=COMMON_NOTE + m.get("LEVEL_NOTE", ""),
+                technique=m.get("TECHNIQUE", DEFAULT_TECH)))
         else:
-            na.append(dict(property_id=pid, reason=P.get(pid, {}).get(
-                "na", "check not built yet in this round (planned: Lean model + theorems + correspondence, see DESIGN.md §4); not claimed until it runs")))
+            na.append(dict(property_id=pid, reason=m.get(
+                "NOT_APPLICABLE", "check not built yet in this round (planned: Lean model + theorems + correspondence, see DESIGN.md §4); not claimed until it runs")))
     man = dict(
         version=1,
         setup_cmd="./setup.sh",
